@@ -11,7 +11,7 @@ import subprocess
 from ..cfg import CFG, cond_strings
 from ..paths import path_variants
 from ..tutil import (bound_args, callee_of, concat_parts, fuse_comps,
-                     simp)
+                     normalise, seq_concat, simp)
 from ..astutil import cond_terms, inside
 from ..core import AnalysisError, const_value, walk_own
 from .c05 import subset_test
@@ -551,7 +551,7 @@ def _read_percolator(ctx, f):
             and ast.unparse(n.func) == "OnDiskPsmDataset"]
     ctx.require(len(ctor) == 1, f"{f.qual}: dataset constructor not found")
     dsf = prog.func("mokapot.dataset.OnDiskPsmDataset.__init__")
-    got = {k: fuse_comps(simp(T.of(v)))
+    got = {k: normalise(T.of(v))
            for k, v in prog.bind(dsf, ctor[0]).items()}
     COLS = got.get("columns")
     ctx.require(COLS is not None and COLS[0] == "mcall"
@@ -637,6 +637,11 @@ def _read_percolator(ctx, f):
                      L["peptide_column"], L["protein_column"],
                      L["target_column"]))
     sp_n = spine(NONFEAT) if NONFEAT else []
+    # [a, b, c, d, e, *more] counts as starting with the five as well
+    sp_n = [("list", tuple(x for k, x in seq_concat(y)[:5]))
+            if y[0] == "list" and len(y[1]) > 5 and all(
+                k == "item" for k, _x in seq_concat(y)[:5]) else y
+            for y in sp_n]
     ctx.check(bool(sp_n) and all(x == five for x in sp_n),
               "C10c-reserved-set", f,
               "the reserved set starts as id, scan, peptide, proteins, "
@@ -698,7 +703,7 @@ def _read_percolator(ctx, f):
     def fcols(name):
         return {"col": ("const", name), "columns": COLS}
 
-    parts = concat_parts(lv) if lv else []
+    parts = seq_concat(lv) if lv else []
     ok_l = len(parts) == 4 and parts[0] == ("item", L["peptide_column"]) \
         and all(p[0] == "splice" and is_lookup(p[1], "find_columns",
                                                 fcols(nm))
@@ -718,6 +723,17 @@ def _read_percolator(ctx, f):
                 and e[1][2] == "get_column_types" and e[1][1] == COLS[1]
                 and e[2] == ("mcall", COLS, "index",
                              (("elem", NONFEAT),), ()))
+        if not ok_m and e[0] == "sub" and e[2][0] == "sub" and \
+                e[2][2] == ("elem", NONFEAT):
+            # position looked up in a first-occurrence table:
+            #   for i, c in enumerate(columns): table.setdefault(c, i)
+            tab = e[2][1]
+            ok_m = (e[1][0] == "mcall" and e[1][2] == "get_column_types"
+                    and e[1][1] == COLS[1] and any(
+                        isinstance(x, tuple) and x and x[0] == "mut"
+                        and x[2] == "setdefault" and x[3] == (
+                            ("elem", COLS), ("idx", COLS))
+                        for x in walk_term(tab)))
     ctx.check(ok_m, "C10c-dataset-roles", f,
               "metadata column types are looked up by the position of each "
               "metadata column in the file header",
@@ -733,13 +749,15 @@ def _read_percolator(ctx, f):
     if len(task) == 1:
         sf = prog.func(PIN + "drop_missing_values_and_fill_spectra_dataframe")
         ba = prog.bind(sf, task[0])
-        kw = {k: T.of(v) for k, v in ba.items()}
+        kw = {k: normalise(T.of(v)) for k, v in ba.items()}
         p_reader, p_col, p_spec, p_list = sf.params
         SL = kw[p_col][1] if kw.get(p_col, ("x",))[0] == "elem" else None
         gen = cfg.enclosing(task[0], (ast.GeneratorExp, ast.ListComp))
         ok_gen = gen is not None and len(gen.generators) == 1 and \
             not gen.generators[0].ifs
         bs = bound_args(prog, SL) if SL else None
+        if bs:
+            bs = {k: normalise(v) for k, v in bs.items()}
         ident = ("bin", "+", sp, ("list", (L["target_column"],)))
         ok = (ok_gen and bs is not None
               and SL[1] == PIN + "create_chunks_with_identifier"
@@ -753,7 +771,8 @@ def _read_percolator(ctx, f):
             LIST_defs = {d.uid for d in du.defs_of(ba[p_list])}
         if TASKS is not None and ok:
             # the report is built from exactly these tasks
-            ok = any(x == T.of(task[0]) for x in walk_term(TASKS))
+            tt_ = normalise(T.of(task[0]))
+            ok = any(x == tt_ for x in walk_term(TASKS))
             if not ok:
                 why = "the NaN report is not built from the scan tasks"
     ctx.check(ok, "C10d-every-column-chunk-scanned", f,
